@@ -69,8 +69,13 @@ func (s *Scheduler) Schedule(g *ExecutionGraph) error {
 				continue
 			}
 
+			// a pipeline nested by several stages is scheduled by several loops at once: the stage
+			// goes to the loop that wins the Waiting -> Running transition
+			if !atomic.CompareAndSwapInt32(&stage.Status, StatusWaiting, StatusRunning) {
+				continue
+			}
+
 			wg.Add(1)
-			stage.UpdateStatus(StatusRunning)
 			go func(stage *Stage) {
 				verifYield("stage-start", stage)
 				defer func() {
